@@ -7,6 +7,7 @@ Only these classes write to the event log.
 """
 
 import asyncio
+import sys
 
 from .lib import AbstractJob, Job, PureScheduler, Scheduler
 
@@ -102,6 +103,10 @@ class SimTask(asyncio.Task):
     def cancel(self, msg=None):
         # seam: a cancellation request for the task that wraps a job
         job = getattr(self, '_job', None)
+        if sys._getframe(1).f_code.co_name == '_on_timeout':
+            # asyncio.timeout() inside the job's own body (a "guard" step),
+            # not a request from a scheduler
+            job = None
         if job is not None and not self.done():
             nid = getattr(job, 'nid', None)
             if nid is not None:
@@ -131,8 +136,30 @@ async def _spend(steps, ctx=None, nid=None):
                 await asyncio.sleep(0)
         elif op == 'inspect':
             _inspect(ctx, nid, arg)
+        elif op == 'guard':
+            await _guarded(arg[0], arg[1])
         else:                                           # pragma: no cover
             raise ValueError(op)
+
+
+async def _guarded(bound, cleanup):
+    """the body bounds an operation of its own with asyncio.timeout(): at
+    expiry asyncio requests the cancellation of the job's *own task*, the
+    operation spends `cleanup` tidying up, the timeout is converted into
+    TimeoutError and the body goes on. Between the request and the end of the
+    tidying the task has a cancellation pending (Task.cancelling() > 0) while
+    the job is neither cancelled by anybody else nor over. A cancellation from
+    the scheduler that lands in this step is passed on as usual."""
+    task = asyncio.current_task()
+    try:
+        async with asyncio.timeout(bound) as scope:
+            try:
+                await asyncio.get_running_loop().create_future()
+            finally:
+                if scope.expired() and task.cancelling() == 1:
+                    await asyncio.sleep(cleanup)
+    except TimeoutError:
+        pass
 
 
 def _inspect(ctx, nid, arg):
